@@ -16,6 +16,7 @@ mod robust;
 mod mapmatch;
 mod interp;
 mod powertrain;
+mod ksp;
 
 fn main() {
     // panics of the code under test are recorded as events by util::guarded; keep stderr quiet
@@ -43,6 +44,8 @@ fn main() {
         "match" => mapmatch::main(rest),
         "interp" => interp::main(rest),
         "powertrain" => powertrain::main(rest),
+        "ksp" => ksp::main(rest),
+        "ksp-child" => ksp::child(&rest[0]),
         "robust-child" => robust::child(&rest[0]),
         other => {
             eprintln!("unknown subcommand {}", other);
